@@ -43,7 +43,7 @@ C08.nx      the predicate the write path sets the NXDOMAIN marker from,
 import re
 
 from mirlib import BranchFacts, closures_created_in, strip, deep_strip, show, walk, const_value
-from rulelib import bool_facts, facts_at, return_assignments
+from rulelib import bool_facts, facts_at, return_assignments, must_pass, fmt_path
 
 RZ = r"^zonetree::in_memory::read::ReadZone::"
 IGN = {"clone", "deref", "as_ref", "drop", "branch", "from_residual", "cloned", "new", "into_iter", "next", "iter", "get",
@@ -81,6 +81,7 @@ def run(ctx):
     c09.rule_drop(ctx, F)    # an abandoned writer leaves nothing behind
     rule_emptyset(ctx, F)
     rule_inzone(ctx, F)
+    rule_glueall(ctx, F)
 
 
 def _one(F, rx):
@@ -630,3 +631,35 @@ def rule_inzone(ctx, F):
         ctx.ob(R, b, "apex labels are compared as labels", ok,
                "rel_name_rev_iter compares %s: octet-wise comparison is case-sensitive, so `www.EXAMPLE.` is out of zone for the "
                "apex `example.` although every lookup below the apex ignores case" % (tys[:120] or "?"), b.where(bb))
+
+
+def rule_glueall(ctx, F):
+    """A referral carries the in-zone addresses of *every* name server of the delegation, wherever in the zone its name
+    lies (a sibling name server's glue is as necessary as one below the cut).  In the zone builder's cut loop every NS
+    record of the cut reaches `collect_glue`: from the `ZoneRecordData::Ns` edge there is no way back to the loop head
+    (or on) around the call."""
+    R = "C08.glueall"
+    ctx.floor(R, 1)
+    b = F.one_body(r"^zonetree::parsed::<impl core::convert::TryFrom<zonetree::parsed::Zonefile> for zonetree::in_memory::builder::ZoneBuilder>::try_from$")
+    if not ctx.anchor(R, "ZoneBuilder::try_from(Zonefile)", b):
+        return
+    glue = [bb for bb, t in b.calls() if re.search(r"Owners::<.*>::collect_glue$", t["fn"] or "")]
+    bf = BranchFacts(b, F)
+    edges = []
+    for sw in sorted(b.reachable_blocks()):
+        if b.blocks[sw]["t"]["k"] != "switch":
+            continue
+        for lab, (tm, v) in bf.edge_facts(sw).items():
+            if v == ("variant", "Ns"):
+                edges.append((sw, lab))
+    if not ctx.anchor(R, "collect_glue call and the Ns arm of the cut loop", len(glue) >= 1 and len(edges) >= 1, b.where()):
+        return
+    for sw, lab in edges:
+        tgt = b.edge_target(sw, lab)
+        # everything the Ns arm can reach without the call: the loop head (next iteration) or the function's exits
+        heads = {bb for bb, t in b.calls() if (t["fn"] or "").endswith("Iterator::next") and b.dominates(bb, sw)}
+        ok, pth = must_pass(b, tgt, heads | set(b.return_blocks()), glue)
+        ctx.ob(R, b, "every NS record of a cut has its name server's in-zone addresses collected", ok,
+               "ZoneBuilder::try_from skips collect_glue for some NS records of a zone cut (bypass %s): a name server that is in the "
+               "zone but, say, not below the delegation point loses its glue, and the referral cannot be followed"
+               % fmt_path(pth), b.where(sw))
